@@ -138,7 +138,7 @@ impl Container {
         let value_storage = directory_pack.create_value_storage();
         let entry_storage = directory_pack.create_entry_storage();
         let mut packs = Vec::new();
-        packs.resize_with((manifest_pack.max_id() + 1) as usize, Default::default);
+        packs.resize_with(manifest_pack.max_id() as usize + 1, Default::default);
         Ok(Self {
             manifest_pack,
             locator,
